@@ -2,12 +2,14 @@ package h
 
 import (
 	"bytes"
+	"errors"
 	"fmt"
 	"os"
 	"path/filepath"
 	"strings"
 
 	"github.com/ipfs/go-cid"
+	"github.com/ipld/go-car/v2/verifbridge"
 	"verif/sim"
 )
 
@@ -219,11 +221,17 @@ func (s *sess) accept(st int, op Op, res opResult) (ok bool, next int, apply fun
 				return false, 0, nil, fmt.Sprintf("Get(%s) returned %d bytes for a key never stored", blk.Spec, len(res.data))
 			}
 			if !IsNotFound(res.err) {
+				if errors.Is(res.err, verifbridge.ErrSectionTooLarge) {
+					return false, 0, nil, fmt.Sprintf("section-limit: Get(%s) of an absent key sharing a digest with a stored over-limit block failed: %v", blk.Spec, res.err)
+				}
 				return false, 0, nil, fmt.Sprintf("Get(%s) of an absent key failed with a non-not-found error: %v", blk.Spec, res.err)
 			}
 			return true, st, nil, ""
 		}
 		if res.err != nil {
+			if errors.Is(res.err, verifbridge.ErrSectionTooLarge) {
+				return false, 0, nil, fmt.Sprintf("section-limit: Get(%s) of a stored key failed: %v", blk.Spec, res.err)
+			}
 			return false, 0, nil, fmt.Sprintf("Get(%s) of a stored key failed: %v", blk.Spec, res.err)
 		}
 		if !bytes.Equal(res.data, want) {
@@ -389,6 +397,8 @@ func (s *sess) step(op Op, audit bool) *Violation {
 			symptom = "use-after-close-succeeded"
 		case strings.Contains(whys[0], "wrong bytes"):
 			symptom = "wrong-bytes"
+		case strings.HasPrefix(whys[0], "section-limit:"):
+			symptom = "stored-block-over-section-limit"
 		}
 		return viol("session/"+symptom+"/"+op.Kind, "op #%d %s%v (result err=%s): %s", s.opIdx, op.Kind, op.Blks, errStr(res.err), strings.Join(whys, " | "))
 	}
